@@ -116,7 +116,14 @@ class Tr:
         m = re.match(r'^(\w+) = PyObject_RichCompareBool\( ?self->(\w+), (\w+), Py_NE\)$', t)
         if m and m.group(2) in FIELDS:
             tmp = s.v('__tmp_' + m.group(2))
-            return ['.borrowField %d %d' % (tmp, FIELDS[m.group(2)]), '.use %d' % tmp, '.use %d' % s.v(m.group(3)), '.callback']
+            # (the comparison goes on reading both operands after an element's __eq__ has run Python code)
+            return ['.borrowField %d %d' % (tmp, FIELDS[m.group(2)]), '.use %d' % tmp, '.use %d' % s.v(m.group(3)), '.callback',
+                    '.use %d' % tmp, '.use %d' % s.v(m.group(3))]
+        m = re.match(r'^(\w+) = PyObject_RichCompareBool\((\w+), (\w+), Py_NE\)$', t)
+        if m and m.group(2) in s.vars and m.group(3) in s.vars:
+            # two local references compared: both are read, Python code (an __eq__) may run, both are read again
+            a, b = s.v(m.group(2)), s.v(m.group(3))
+            return ['.use %d' % a, '.use %d' % b, '.callback', '.use %d' % a, '.use %d' % b]
         m = re.match(r'^(\w+) = (\w+)$', t)
         if m and m.group(2) in s.vars and m.group(1) in ('key', 'result'): return ['ALIAS %s %s' % (m.group(1), m.group(2))]
         if re.match(r'^int \w+$', t): return []
